@@ -29,6 +29,8 @@ func main() {
 		devC27()
 	case "c30":
 		devC30()
+	case "c36templates":
+		devC36Templates()
 	case "c36child":
 		os.Exit(c36Child(os.Args[2:]))
 	default:
